@@ -12,14 +12,14 @@ use std::time::Instant;
 use web_time::Instant;
 
 use cactus::Cactus;
-use cfgrammar::{Span, TIdx};
+use cfgrammar::TIdx;
 use lrtable::{Action, StIdx};
 use num_traits::{AsPrimitive, PrimInt, Unsigned};
 
 use super::{
     Lexeme, LexerTypes,
     dijkstra::dijkstra,
-    parser::{AStackType, ParseRepair, Parser, Recoverer},
+    parser::{AStackType, ParseRepair, Parser, Recoverer, SpanEntry},
 };
 
 const PARSE_AT_LEAST: usize = 3; // N in Corchuelo et al.
@@ -153,7 +153,7 @@ where
         in_laidx: usize,
         in_pstack: &mut Vec<StIdx<StorageT>>,
         astack: &mut Vec<AStackType<LexerTypesT::LexemeT, ActionT>>,
-        spans: &mut Vec<Span>,
+        spans: &mut Vec<SpanEntry>,
     ) -> (usize, Vec<Vec<ParseRepair<LexerTypesT::LexemeT, StorageT>>>) {
         // This function implements a minor variant of the algorithm from "Repairing syntax errors
         // in LR parsers" by Rafael Corchuelo, Jose A. Perez, Antonio Ruiz, and Miguel Toro.
@@ -476,7 +476,7 @@ fn apply_repairs<
     mut laidx: usize,
     pstack: &mut Vec<StIdx<StorageT>>,
     astack: &mut Option<&mut Vec<AStackType<LexerTypesT::LexemeT, ActionT>>>,
-    spans: &mut Option<&mut Vec<Span>>,
+    spans: &mut Option<&mut Vec<SpanEntry>>,
     repairs: &[ParseRepair<LexerTypesT::LexemeT, StorageT>],
 ) -> usize
 where
